@@ -26,12 +26,22 @@ class Ctx:
         self.next_label = 1
         self.log = []
         self.paths = {}
+        self.stored = []      # (Trace object, what it showed when it was delivered): a tracer may keep the events
 
     def label(self, doc):
         self.table, self.next_label = label_tree(doc, self.table, self.next_label)
 
     def drain(self):
         evs, self.log = self.log, []
+        # a Trace that was delivered keeps showing the attempt it was delivered for (C17-m7: one reused object)
+        stored, self.stored = self.stored, []
+        for t, shown in stored:
+            try:
+                now = render_trace(self, t)
+            except Exception as e:  # noqa
+                now = OS("unreadable:" + type(e).__name__)
+            if now != shown:
+                evs.append(ON("TRACE-CHANGED-AFTER-DELIVERY", [shown, now]))
         return ON("events", evs)
 
 
@@ -275,15 +285,21 @@ def _build_path(cx, steps, root=None):
 
 
 # ----------------------------------------------------------------------------- read-only scripts
+def render_trace(cx, t):
+    nv = t.next_vertex
+    return ON("trace", [
+        mref(cx, t.last_match),
+        oopt(lambda x: mref(cx, x), t.next_match),
+        OZ(len(nv.path_as_list) - 1),
+        oopt(lambda x: mref(cx, x), t.predicate_match),
+    ])
+
+
 def make_trace(cx):
     def tr(t):
-        nv = t.next_vertex
-        cx.log.append(ON("trace", [
-            mref(cx, t.last_match),
-            oopt(lambda x: mref(cx, x), t.next_match),
-            OZ(len(nv.path_as_list) - 1),
-            oopt(lambda x: mref(cx, x), t.predicate_match),
-        ]))
+        shown = render_trace(cx, t)
+        cx.log.append(shown)
+        cx.stored.append((t, shown))
     return tr
 
 
@@ -792,6 +808,22 @@ def run_lcase(case):
 
         def unwrap(w):
             return w.data
+    elif mode == 'box':
+        # a wrapper type without __eq__: membership and the other operations go through to_json_value (C19-m7)
+        class Box:
+            __slots__ = ('j',)
+
+            def __init__(self, j):
+                self.j = j
+
+        class Owner(Document):
+            b = attr_list_typed(Box, path.b, to_wrapped_value=Box, to_json_value=lambda w: w.j)
+
+        def wrap(v):
+            return Box(v)
+
+        def unwrap(w):
+            return w.j
     else:
         class Owner(Document):
             b = attr_list_typed(tuple, path.b, to_wrapped_value=lambda j: ('T', j), to_json_value=lambda w: w[1])
@@ -1234,6 +1266,17 @@ def run_pcase(case):
 # ----------------------------------------------------------------------------- replays of recorded findings
 def run_fcase(case):
     k = case['finding']
+    if k == 'MANY':
+        # a finite document with many results: every next() is a bounded amount of work, so the traversal reaches
+        # the end however many results there are (the budget belongs to one next(), not to the traversal: C20-m7)
+        n = case.get('n', 400000)
+        try:
+            c1 = sum(1 for _ in find(path[wc], list(range(n))))
+            grid = {"rows": [{"cells": [1] * 400} for _ in range(n // 400)]}
+            c2 = sum(1 for _ in find_matches(path.rows[wc].cells[wc], grid))
+            return ON("f", [OS("results:%d,%d" % (c1, c2))])
+        except Exception as e:  # noqa
+            return ON("f", [OS(type(e).__name__)])
     if k == 'F1':
         # the budget of a next() is spent on any long stretch without a result, not only on cycles
         n = case.get('n', 400000)
